@@ -60,7 +60,9 @@ def classify(spec, ctx, trace):
 def check(spec, ctx, want=("C01",), prop="C01"):
     outcome, msg, trace, _b = S.run(spec)
     viol, stats = S.monitor(spec, trace, want=want)
-    ctx.nontrivial(classify(spec, ctx, trace))
+    differ = classify(spec, ctx, trace)
+    # C02's rule additionally asks for an update reached through a dependency chain (not at the minimum time)
+    ctx.nontrivial(differ and (prop != "C02" or stats["non_min_updates"] > 0))
     ctx.event(f"outcome={outcome}")
     ctx.event("non-min-updates", stats["non_min_updates"])
     for p, tag, m, _ev in viol:
